@@ -203,10 +203,11 @@ pub fn real_token(r: &mut Rng, styled: bool) -> String {
 
 pub fn repeat_token(r: &mut Rng) -> String {
     let w = *r.pick(&["la", "ab", "x", "de", "ATG", "0000", "你", "\u{1f389}", "foo-bar", "é", "ff"]);
-    let n = match r.below(4) {
-        0 => r.range(2, 6),
-        1 => *r.pick(&[8usize, 9, 12, 16, 24, 32]),
-        _ => r.range(2, 40),
+    let n = match r.below(8) {
+        0..=2 => r.range(2, 6),
+        3..=4 => *r.pick(&[8usize, 9, 12, 16]),
+        5..=6 => r.range(2, 12),
+        _ => *r.pick(&[24usize, 32, 40]),
     };
     let sep = *r.pick(&[" ", " ", " ", "", "  "]);
     let mut s = String::new();
@@ -349,6 +350,7 @@ impl Mix {
             };
             if on {
                 let w = match c {
+                    Class::Repeat => 1,
                     Class::Ascii => r.range(2, 10),
                     Class::Space => r.range(2, 8),
                     Class::Para => r.range(1, 3),
